@@ -208,8 +208,13 @@ func dependsOnSubscriptionLookup(c *Ctx, s *Stmt, v ssa.Value) (found bool) {
 }
 
 func dependsOnSubscriptionLookup0(c *Ctx, s *Stmt, v ssa.Value) bool {
+	// the operation(s) this statement instance runs in: its owner, and the functions whose call completed it
+	owners := map[string]bool{c.Owner(s): true}
+	for _, f := range s.Frames {
+		owners[c.Key(c.effectiveTop(top(f.Parent()), 0))] = true
+	}
 	for _, q := range c.EntShape().Stmts {
-		if q.Table != "subscriptions" || q.Kind != "select" || c.Owner(q) != c.Owner(s) {
+		if q.Table != "subscriptions" || q.Kind != "select" || !owners[c.Owner(q)] {
 			continue
 		}
 		for _, t := range q.Terms {
@@ -510,13 +515,13 @@ func ruleC03_1(c *Ctx, r *Rep) {
 		}
 		for _, m := range s.Mut("completed_at", "clear") {
 			n++
-			r.Check("C03.1", "C03.1:clear(completed_at)@"+keys[s], m.Pos, in(c.Owner(s), fnSeekTime, fnSeekSnap), "completion undone by an explicit seek only",
+			r.Check("C03.1", "C03.1:clear(completed_at)@"+keys[s], m.Pos, c.ownedBy(s, fnSeekTime, fnSeekSnap), "completion undone by an explicit seek only",
 				c.Owner(s)+" clears deliveries.completed_at: an acknowledged message becomes deliverable again without a seek")
 		}
 		// setting completed_at to something that is not a time "now" is out of scope; SetNillableCompletedAt(nil) would be a clear
 		for _, m := range s.Mut("completed_at", "set") {
 			if m.Method == "SetNillableCompletedAt" && s.Kind == "update" {
-				r.Check("C03.1", "C03.1:nillable(completed_at)@"+keys[s], m.Pos, in(c.Owner(s), fnSeekTime, fnSeekSnap), "", c.Owner(s)+" may reset completed_at through a nillable setter")
+				r.Check("C03.1", "C03.1:nillable(completed_at)@"+keys[s], m.Pos, c.ownedBy(s, fnSeekTime, fnSeekSnap), "", c.Owner(s)+" may reset completed_at through a nillable setter")
 			}
 		}
 	}
@@ -545,7 +550,7 @@ func ruleC03_3(c *Ctx, r *Rep) {
 		}
 		if s.Table == "deliveries" && s.Kind == "bulk" {
 			n++
-			r.Check("C03.3", "C03.3:"+keys[s], s.Pos, in(c.Owner(s), fnPublish, fnDeadLetter), "bulk save in publish / dead-letter", "deliveries are bulk-created by "+c.Owner(s))
+			r.Check("C03.3", "C03.3:"+keys[s], s.Pos, c.ownedBy(s, fnPublish, fnDeadLetter), "bulk save in publish / dead-letter", "deliveries are bulk-created by "+c.Owner(s))
 		}
 	}
 	r.Floor("C03.3", n, 3)
